@@ -29,6 +29,11 @@ Composite operations are scripts of primitives ending in `Op.finalize p` (= the 
 release_all()`): `runScript`, `callAndWaitScript`, `asCompletedScript` below.  A raise or an early
 `close()` of the generator truncates the body — the finaliser still runs.
 
+Round 6 added the primitive operations the composite operations are made of between two of their own yield points
+(`aliveWorkers` = the property `pool.workers`, `submitW` = `Worker.submit` up to its `call`, `acquireAllCall`, `isAliveW`,
+`acquiredWorkers`); `Model/OwnerEnv.lean` runs `WorkerPool.run` / `call_and_wait` / `Worker.submit` as programs over them, and the
+harness replays `orchestrate.as_completed` as the script of them its body was observed to perform.
+
 Blocking acquisition (`acquire_by(blocking=True)`, no caller in the repo) is not modelled.
 -/
 namespace MlModel.Owner
